@@ -1,4 +1,5 @@
 import A816.Model.Resolver
+import A816.Proofs.Replay
 /-!
 # C08 — Names resolve lexically; scopes isolate; named scopes export
 
@@ -12,6 +13,16 @@ each scope's parent was created before it (`ParentLt`, which scope creation main
 * `export_named`: leaving a named scope `n` with exports makes every symbol `k` of `n` available in
   the enclosing scope as `n.k` with the same value; other bindings of the enclosing scope are untouched.
 * `appendScope_lexical`: a scope is created as a child of the scope current at that point.
+* **`replay_consistent`** (with `Proofs/Replay.lean`): for *every* AST and nesting budget, the node list
+  produced by code generation replays the scope structure it created: a traversal that starts in the
+  scope generation started in enters, at every `ScopeNode`, the scope appended for that construct (a
+  child of the scope the construct stands in), is back in the enclosing scope after the matching
+  `PopScopeNode`, ends where it started having entered every new scope exactly once, and never runs out
+  of scopes (`IndexError`) or of parents (`RuntimeError`) — for every later extension of the scope list.
+  `scope_body_in_child`: the body of a block / named scope / macro application / loop iteration is
+  traversed with the new child scope current.  `label_pass_follows_replay`, `emission_follows_replay`:
+  the passes of `Program.resolve_labels` and `Program.emit` move through the scopes exactly as that
+  replay does.  Together with `valueFor_*` this is "names resolve lexically" across the three passes.
 -/
 namespace A816.C08
 open A816 Resolver
@@ -221,5 +232,98 @@ theorem appendScope_lexical (r : Resolver) (kind : ScopeKind) (hc : CurOk r) (h 
           simp [appendScope, scopeAt, Array.getElem?_push, hi2, Array.getElem?_eq_none (by omega : r.scopes.size ≤ i)]
         rw [this] at hp
         cases hp
+
+/-! ### positional replay = lexical nesting -/
+
+open Replay in
+/-- **C08 (replay consistency)**: code generation of any statement list, from any state in which every
+    scope created so far has been entered, yields a node list whose positional replay (from the scope
+    and the scope count generation started with) ends in the same scope with every new scope entered,
+    whatever scopes are appended later; parents of existing scopes never change. -/
+theorem replay_consistent (env : Env) (fuel : Nat) (asts : List Ast) (st st' : GenState) (nodes : List Node)
+    (hinv : GenInv st) (h : (genList env fuel asts).run st = .ok (nodes, st')) :
+    GenInv st' ∧ st'.r.current = st.r.current ∧ Agrees st.r.scopes st'.r.scopes ∧
+    ∀ ext, Agrees st'.r.scopes ext →
+      replay ext nodes st.r.current st.r.lastUsed = some (st.r.current, st'.r.lastUsed) := by
+  have p := genList_post env fuel asts st nodes st' hinv h
+  exact ⟨p.inv hinv, p.cur, p.agrees, p.replays⟩
+
+open Replay in
+/-- the state `Program` starts code generation in satisfies the invariant: one root scope, current, entered -/
+theorem init_genInv (r : Resolver) (macros : List (String × MacroDef)) (fs : FS)
+    (hs : r.scopes.size = 1) (hc : r.current = 0) (hl : r.lastUsed = 0) : GenInv ⟨r, macros, fs⟩ :=
+  ⟨by show r.lastUsed + 1 = r.scopes.size; rw [hl, hs], by show r.current < r.scopes.size; rw [hc, hs]; exact Nat.one_pos⟩
+
+open Replay in
+/-- **a scope construct's body is traversed in its own child scope**: for a block `{ … }` generated in scope `c`
+    when `k` scopes exist, the node list is `ScopeNode :: body ++ [PopScopeNode]`; the replay enters scope `k`,
+    whose parent is `c`, traverses the body there, and returns to `c`. -/
+theorem scope_body_in_child (env : Env) (fuel : Nat) (body : List Ast) (i : Tok) (st st' : GenState) (nodes : List Node)
+    (hinv : GenInv st) (h : (gen env (fuel + 1) (.compound body i)).run st = .ok (nodes, st')) :
+    ∃ inner, nodes = Node.scopeEnter :: inner ++ [Node.scopePop] ∧
+      (st'.r.scopes.getD st.r.scopes.size default).parent = some st.r.current ∧
+      ∀ ext, Agrees st'.r.scopes ext →
+        replay ext inner st.r.scopes.size st.r.scopes.size = some (st.r.scopes.size, st'.r.lastUsed) := by
+  have hw : RunsTo (withScope .plain id [] (genListWith (gen env fuel) body)) st nodes st' := by
+    unfold gen at h; exact h
+  unfold withScope at hw
+  simp only [runsTo_bind, runsTo_modR, runsTo_gUseNext, runsTo_gRestore, runsTo_pure] at hw
+  obtain ⟨_, st1, e1, _, st2, ⟨r2, hr2, e2⟩, _, st3, e3, inner, st4, hb, _, st5, ⟨r5, hr5, e5⟩, hn, hst⟩ := hw
+  subst e1 e2 e3 e5
+  obtain ⟨hsz, hag1, hpar, hc1, hl1⟩ := appendScope_spec st.r .plain
+  obtain ⟨hlt, hs2, hc2, hl2⟩ := useNextScope_spec _ _ hr2
+  simp only at hlt hs2 hc2 hl2
+  rw [hl1] at hc2 hl2
+  have hnew := hinv.last
+  have hinv3 : GenInv { st with r := id r2 } :=
+    ⟨by show r2.lastUsed + 1 = r2.scopes.size; rw [hl2, hs2, hsz, hnew],
+     by show r2.current < r2.scopes.size; rw [hc2, hs2, hsz, hnew]; omega⟩
+  have pb := genListWith_post _ (gen_good env fuel) body _ inner st4 hinv3 hb
+  obtain ⟨p, hp, hs5, hc5, hl5⟩ := restoreScope_spec _ _ hr5
+  refine ⟨inner, by rw [hn]; simp, ?_, ?_⟩
+  · rw [hst]; show (r5.scopes.getD st.r.scopes.size default).parent = _
+    rw [hs5, pb.agrees.2 _ (by show st.r.scopes.size < r2.scopes.size; rw [hs2, hsz]; omega)]
+    show (r2.scopes.getD st.r.scopes.size default).parent = _
+    rw [hs2]; exact hpar
+  · intro ext hext
+    have hext4 : Agrees st4.r.scopes ext := by
+      rw [hst] at hext; show Agrees st4.r.scopes ext
+      have : r5.scopes = st4.r.scopes := hs5
+      rw [← this]; exact hext
+    have hr := pb.replays ext hext4
+    have e1 : ({ st with r := id r2 } : GenState).r.current = st.r.scopes.size := by show r2.current = _; rw [hc2, hnew]
+    have e2 : ({ st with r := id r2 } : GenState).r.lastUsed = st.r.scopes.size := by show r2.lastUsed = _; rw [hl2, hnew]
+    rw [e1, e2] at hr
+    rw [hr, hst]; show some (st.r.scopes.size, st4.r.lastUsed) = some (st.r.scopes.size, r5.lastUsed)
+    rw [hl5]
+
+open Replay in
+/-- **the label pass and the symbol pass follow the replay** (`skip` = the node classes a pass leaves out,
+    never a scope marker) -/
+theorem label_pass_follows_replay (env : Env) (skip : Node → Bool) (hskip : ∀ n, skip n = true → Node.isScopeMark n = false)
+    (nodes : List Node) (r r' : Resolver) (pc pc' : Address) (h : passLoop env skip nodes r pc = .ok (r', pc')) :
+    replay r.scopes nodes r.current r.lastUsed = some (r'.current, r'.lastUsed) :=
+  (passLoop_replay env skip hskip nodes r r' pc pc' h).1
+
+open Replay in
+/-- the two `skip` predicates of `Program.resolve_labels` qualify -/
+theorem pass_skips_no_scope_marker : (∀ n, Node.isSymbol n = true → Replay.Node.isScopeMark n = false) ∧
+    (∀ n, Node.isLabelOrBinary n = true → Replay.Node.isScopeMark n = false) := by
+  constructor <;> (intro n hn; cases n <;> first | rfl | (simp [Node.isSymbol, Node.isLabelOrBinary] at hn))
+
+open Replay in
+/-- **emission follows the replay**, one node at a time -/
+theorem emission_follows_replay (env : Env) (n : Node) (r r' : Resolver) (bs : List Nat)
+    (h : emitNode env n r = .ok (r', bs)) :
+    replay r.scopes [n] r.current r.lastUsed = some (r'.current, r'.lastUsed) :=
+  (emitNode_replay env n r r' bs h).1
+
+/-- non-vacuity: `{ a: } { a: }` generated from the root creates scopes 1 and 2, both children of the root, and the
+    replay of the node list from (0, 0) ends at (0, 2) -/
+example :
+    let root : ScopeRec := { kind := .plain, parent := none }
+    let nodes := [Node.scopeEnter, .label "a", .scopePop, .scopeEnter, .label "a", .scopePop]
+    Replay.replay #[root, { kind := .plain, parent := some 0 }, { kind := .plain, parent := some 0 }] nodes 0 0 = some (0, 2) := by
+  decide
 
 end A816.C08
